@@ -725,6 +725,13 @@ class Price(typing.NamedTuple):
     currency: int = 978
     cents: int = 0
 
+class Registered:
+    # a catch-all __new__ (instance registry pattern) next to an annotated __init__: inspect.signature(Registered) is (*args, **kwargs)
+    def __new__(cls, *args, **kwargs):
+        return super().__new__(cls)
+    def __init__(self, port: int, *tags: bytes, ratio: decimal.Decimal = decimal.Decimal(1)):
+        self.args = (port, tags, ratio)
+
 class InheritedPrice(Price):
     # inherits its fields, adds only a method (no annotations of its own)
     def total(self):
@@ -746,6 +753,20 @@ def special_classes(res):
             ("InheritedPrice", m.InheritedPrice, (("1.5", "840"), {"cents": "25"}), tuple, (1.5, 840, 25)),
             ("InheritedPrice", m.InheritedPrice, (("2",), {}), tuple, (2.0, 978, 0)),
         ]
+        import decimal as _dec
+
+        # wrap(cls) converts the arguments of the constructor per the annotations of __init__ (it is __init__ that is wrapped)
+        res.programs += 1
+        res.evals += 1
+        res.hit("special:classes:wrap:Registered")
+        w = gcall(typelib.binding.wrap, m.Registered)
+        out = gcall(lambda: w.val("80", "a", "b", ratio="1.5").args) if w.ok else w
+        exp = (80, (b"a", b"b"), _dec.Decimal("1.5"))
+        res.outcomes.add(h64("classes", "wrap", "Registered", out.ok, repr(out.val) if out.ok else out.excname))
+        if not (out.ok and fsame(out.val, exp)):
+            got = repr(out.val) if out.ok else f"raises {out.excname}: {str(out.exc)[:80]}"
+            res.violation("C10/special/class-as-callable/Registered(__new__-catch-all)/" + ("wrong-conversion" if out.ok else "raises:" + out.excname),
+                          f"wrap(Registered)('80', 'a', 'b', ratio='1.5'): __init__(port: int, *tags: bytes, ratio: Decimal) received {got}, expected {exp!r}", {"special": "classes"})
         for api in ("bind", "wrap"):
             for name, target, (a, k), view, exp in table:
                 if api == "wrap" and name in ("Account", "Price", "InheritedPrice"):
@@ -771,7 +792,57 @@ def special_classes(res):
         dropmod("tlg_c10_classes")
 
 
-SPECIALS = {"classes": special_classes, "twin-modules": special_twin_modules, "leading-varargs": special_leading_varargs, "decorated": special_decorated}
+_REJECT_SRC = """
+import uuid
+def f1(a: int, *, key: uuid.UUID, n: int = 0):
+    return ("f1", a, key, n)
+def f2(a: int, /, b: str = "b", *, n: int = 0):
+    return ("f2", a, b, n)
+def f3(*, k: int):
+    return ("f3", k)
+def f4(a: int, b: int = 0):
+    return ("f4", a, b)
+def f5(a: int, **kw: int):
+    return ("f5", a, kw)
+class Inst:
+    def __call__(self, a: int, /, b: str = "b", *, n: int = 0):
+        return ("inst", a, b, n)
+"""
+
+
+def special_rejected_unconvertible(res):
+    """calls Python rejects (one positional too many, no *args) whose surplus value NO parameter could convert: still TypeError,
+    never the conversion error of a parameter the value does not bind to"""
+    import uuid
+
+    cold.clear_all()
+    m = mkmod("tlg_c10_reject", _REJECT_SRC)
+    K = str(uuid.UUID(int=5))
+    try:
+        table = [
+            ("f1", m.f1, ("1", "zz"), {"key": K}), ("f1", m.f1, ("1", "zz", "zz"), {"key": K}), ("f2", m.f2, ("1", "b", "zz"), {}),
+            ("f3", m.f3, ("zz",), {"k": "1"}), ("f4", m.f4, ("1", "2", "zz"), {}), ("f5", m.f5, ("1", "zz"), {"x": "2"}), ("Inst", m.Inst(), ("1", "b", "zz"), {}),
+        ]
+        for api in ("bind", "wrap"):
+            for name, target, a, k in table:
+                cold.clear_all()
+                res.programs += 1
+                res.evals += 1
+                res.hit(f"special:rejected-unconvertible:{api}:{name}")
+                assert not gcall(inspect.signature(target).bind, *a, **k).ok  # Python rejects this call
+                b = gcall(getattr(typelib.binding, api), target)
+                out = gcall(b.val, *a, **k) if b.ok else b
+                key = h64("reject", api, name, repr(a), out.ok, out.excname)
+                res.outcomes.add(key)
+                if out.ok or out.excname != "TypeError":
+                    got = repr(out.val) if out.ok else f"raises {out.excname}: {str(out.exc)[:80]}"
+                    res.violation(f"C10/special/rejected-call-with-unconvertible-surplus/{name}/" + ("accepted" if out.ok else "raises:" + out.excname + "-instead-of-TypeError"),
+                                  f"{api}({name}) called with {a!r} {k!r} (one positional too many): {got}; Python raises TypeError", {"special": "rejected-unconvertible"})
+    finally:
+        dropmod("tlg_c10_reject")
+
+
+SPECIALS = {"rejected-unconvertible": special_rejected_unconvertible, "classes": special_classes, "twin-modules": special_twin_modules, "leading-varargs": special_leading_varargs, "decorated": special_decorated}
 
 
 def _masks_full_first(n, masks):
